@@ -67,6 +67,7 @@ AXIOMS_OK = []
 #                   nothing in between) + the bridge to Model/Crash.v resync / sync_all_steps; no theorem there mentions
 #                   Model/Parallel.v: that this retry rule is what XRefused models is read off the specification
 from harness.core import translated_specs
+RERUN_TO_CONFIRM = True      # worker threads under gated schedules: a failure counts only if the identical pass fails twice (core._run_confirmed)
 TRANSLATED = translated_specs("SignedCostsGen", "JobGen", "EvalPathGen", "StoreGen")
 TRUSTED = [
     "Coq 8.16.1 kernel, vm_compute for model evaluation (no native_compute)",
